@@ -14,8 +14,8 @@ import (
 )
 
 func init() {
-	props["C15"] = &propDef{run: runC15, explanation: "Partial (structural agreement of signer and verifier; not the cryptography). Decided statically: (X1) the signer's curve→hash table and the verifier's curve-name→(curve, coordinate width, hash) table agree row by row, every width equals ⌈bit size/8⌉ of the curve named in the same row (specification table P-256:256, P-384:384, P-521:521, secp256k1:256), and the signer pads r and s to ⌈BitSize/8⌉ computed from the key's own curve; (X2) one signingInput function produces the signing input for both signing and verification from (headers, payload); compact serialisation and parsing use the single encoding base64.RawURLEncoding, the separator '.', and exactly three parts; (G1) the verifier slices the signature only behind len(sig) == 2·width, tests the boolean results of ecdsa.Verify / ed25519.Verify, guards the Ed25519 key size, rejects empty signature / payload segments, and SignPayload refuses a signer without an alg header. Not decided: 'verifies iff produced by the matching key over the same bytes' (cryptography,  go-jose key decoding). (K2) JOSE headers on the parse / verify paths are decoded with the go-jose decoder, which refuses duplicate member names (read from the library source): the verified signing input is rebuilt from the parsed header, so anything the decoder drops would be unsigned header content. The C16 rules (JWK coordinate width, padding helpers, strict reading) run inside this check as well. SerializeCompact writes each segment as the unpadded base64url text of its part. A supplied detached payload is the payload on every accepting path; NewJWS stores header maps made for that JWS; the compact form is three dot-separated segments however assembled. NewJWS hands sign the JOSE headers it stores; ed25519.Verify receives the whole signature parameter."}
-	props["C16"] = &propDef{run: runC16, explanation: "Partial (thin). Decided statically: (K1) secp256k1 JWK marshalling pads X and Y (public and private form) through one padding helper with the constant 32 = ⌈256/8⌉, and the helper left-pads to exactly the requested length; (G1) unmarshalling a secp256k1 JWK succeeds only with X and Y present, each of length curveSize(S256) and the point on the curve (IsOnCurve true edge); curveSize is ⌈BitSize/8⌉; (T1) GetPublicKeyJWK's type switch admits exactly ed25519.PublicKey, *rsa.PublicKey and *ecdsa.PublicKey, marks a key as (EC, secp256k1) exactly when its curve is btcec.S256(), and rejects other types; isSecp256k1 compares both kty and crv. Not decided: the NIST and Ed25519 encodings (delegated to go-jose) and round-trip equality. (G2) closed rejection set of the secp256k1 reader: it says no only for a missing coordinate, a coordinate / private value of the wrong width, or a point off the curve (conditions inside helper predicates are followed). (K2) every (*big.Int).Bytes() flows only into a right-aligning sink; (G3) byteBuffer.data is exactly the base64url decoder's result. (*JWK).UnmarshalJSON stores the decoded key-type and curve labels before every accepting exit. The secp256k1 encoder writes the registered key-type and curve names; key conversion functions keep no state between calls."}
+	props["C15"] = &propDef{run: runC15, explanation: "Partial (structural agreement of signer and verifier; not the cryptography). Decided statically: (X1) the signer's curve→hash table and the verifier's curve-name→(curve, coordinate width, hash) table agree row by row, every width equals ⌈bit size/8⌉ of the curve named in the same row (specification table P-256:256, P-384:384, P-521:521, secp256k1:256), and the signer pads r and s to ⌈BitSize/8⌉ computed from the key's own curve; (X2) one signingInput function produces the signing input for both signing and verification from (headers, payload); compact serialisation and parsing use the single encoding base64.RawURLEncoding, the separator '.', and exactly three parts; (G1) the verifier slices the signature only behind len(sig) == 2·width, tests the boolean results of ecdsa.Verify / ed25519.Verify, guards the Ed25519 key size, rejects empty signature / payload segments, and SignPayload refuses a signer without an alg header. Not decided: 'verifies iff produced by the matching key over the same bytes' (cryptography,  go-jose key decoding). (K2) JOSE headers on the parse / verify paths are decoded with the go-jose decoder, which refuses duplicate member names (read from the library source): the verified signing input is rebuilt from the parsed header, so anything the decoder drops would be unsigned header content. The C16 rules (JWK coordinate width, padding helpers, strict reading) run inside this check as well. SerializeCompact writes each segment as the unpadded base64url text of its part. A supplied detached payload is the payload on every accepting path; NewJWS stores header maps made for that JWS; the compact form is three dot-separated segments however assembled. NewJWS hands sign the JOSE headers it stores; ed25519.Verify receives the whole signature parameter. VerifySignature accepts only behind Verify; the signer emits ecdsa.Sign's r and s as returned; Signature() returns a copy."}
+	props["C16"] = &propDef{run: runC16, explanation: "Partial (thin). Decided statically: (K1) secp256k1 JWK marshalling pads X and Y (public and private form) through one padding helper with the constant 32 = ⌈256/8⌉, and the helper left-pads to exactly the requested length; (G1) unmarshalling a secp256k1 JWK succeeds only with X and Y present, each of length curveSize(S256) and the point on the curve (IsOnCurve true edge); curveSize is ⌈BitSize/8⌉; (T1) GetPublicKeyJWK's type switch admits exactly ed25519.PublicKey, *rsa.PublicKey and *ecdsa.PublicKey, marks a key as (EC, secp256k1) exactly when its curve is btcec.S256(), and rejects other types; isSecp256k1 compares both kty and crv. Not decided: the NIST and Ed25519 encodings (delegated to go-jose) and round-trip equality. (G2) closed rejection set of the secp256k1 reader: it says no only for a missing coordinate, a coordinate / private value of the wrong width, or a point off the curve (conditions inside helper predicates are followed). (K2) every (*big.Int).Bytes() flows only into a right-aligning sink; (G3) byteBuffer.data is exactly the base64url decoder's result. (*JWK).UnmarshalJSON stores the decoded key-type and curve labels before every accepting exit. The secp256k1 encoder writes the registered key-type and curve names; key conversion functions keep no state between calls. EC keys are built only in the checked reader's call tree; every decode into go-jose's JSONWebKey sits inside the strict reader; jws.JWK.Validate has the closed set of refusals; C15.X1's curve tables run here."}
 }
 
 var curveBits = map[string]int{"crypto/elliptic.P256()": 256, "crypto/elliptic.P384()": 384, "crypto/elliptic.P521()": 521, "github.com/btcsuite/btcd/btcec/v2.S256()": 256}
